@@ -161,6 +161,27 @@ func (r *Interceptor) getRecorder(ssrc uint32, clockRate float64) Recorder {
 	return rec
 }
 
+// UnbindLocalStream is called when the Stream is removed. The recorder of the stream is stopped and released.
+func (r *Interceptor) UnbindLocalStream(info *interceptor.StreamInfo) {
+	r.releaseRecorder(info.SSRC)
+}
+
+// UnbindRemoteStream is called when the Stream is removed. The recorder of the stream is stopped and released.
+func (r *Interceptor) UnbindRemoteStream(info *interceptor.StreamInfo) {
+	r.releaseRecorder(info.SSRC)
+}
+
+func (r *Interceptor) releaseRecorder(ssrc uint32) {
+	r.lock.Lock()
+	rec, ok := r.recorders[ssrc]
+	delete(r.recorders, ssrc)
+	r.lock.Unlock()
+
+	if ok {
+		rec.Stop()
+	}
+}
+
 // Close closes the interceptor and associated stats recorders.
 func (r *Interceptor) Close() error {
 	defer r.wg.Wait()
